@@ -72,6 +72,10 @@ func (b Backoff) interval(n int) time.Duration {
 	initial := time.Duration(b.InitialUS) * time.Microsecond
 	mult := float64(b.MultX100) / 100
 	switch {
+	case initial == 0:
+		// initial_interval 0: every product is 0 (float arithmetic would give 0*Inf = NaN for a huge multiplier after
+		// ~30 retries and the NaN guard below would wrongly substitute max_interval)
+		return 0
 	case mult == 0:
 		return initial
 	case mult < 1:
@@ -143,6 +147,21 @@ type Script struct {
 	// batcher) | "async" plain memory queue (the stored context is detached from
 	// the producer's by design: its deadline / cancellation do not apply).
 	Queue string `json:",omitempty"`
+	// Prelude: an EARLIER request sent through the same exporter (same retry configuration) before the judged one.
+	// The judged request is evaluated exactly as if it were the exporter's first: retry state is per request.
+	Prelude *Prelude `json:",omitempty"`
+}
+
+// Prelude scripts the earlier request: Failures plain transient failures (the back-off interval escalates up to
+// max_interval), then a final verdict (success, or a permanent error).  The backend answers it from its own counter
+// (world.preN): Script.Outcomes index the attempts of the judged request only.
+type Prelude struct {
+	Failures  int
+	FinalPerm bool
+	// How the judged request is set up (informational; the oracle does not read it): "budget" max_elapsed_time just
+	// above max_interval (fits the fresh first interval many times, not an escalated one), "deadline" a request
+	// deadline between the two, "free" the generic draws.
+	Variant string
 }
 
 func (s *Script) outcome(i int) Outcome {
@@ -301,7 +320,7 @@ func gen(t *rapid.T) Script {
 	s := Script{Signal: rapid.SampledFrom([]string{sig.Logs, sig.Logs, sig.Traces, sig.Metrics, sig.Profiles}).Draw(t, "signal")}
 	s.Payload = genPayload(t, s.Signal)
 	s.Backoff = genBackoff(t)
-	mode := rapid.SampledFrom([]string{"plain", "plain", "plain", "plain", "plain", "plain", "plain", "disabled", "shutdown", "shutdown", "shutdown-timer", "cancel", "shutdown-zero-interval"}).Draw(t, "mode")
+	mode := rapid.SampledFrom([]string{"plain", "plain", "plain", "plain", "plain", "plain", "plain", "disabled", "shutdown", "shutdown", "shutdown-timer", "cancel", "shutdown-zero-interval", "prelude", "prelude", "prelude"}).Draw(t, "mode")
 	if mode == "disabled" {
 		s.Backoff.Enabled = false
 	}
@@ -325,6 +344,14 @@ func gen(t *rapid.T) Script {
 	}
 	s.Queue = rapid.SampledFrom([]string{"", "", "", "", "wfr", "wfr", "batcher", "async"}).Draw(t, "queue")
 	cur := s.Payload
+	if mode == "prelude" {
+		genPrelude(t, &s)
+		s.Outcomes = append(s.Outcomes, genOutcome(t, s.Signal, &cur, false, true))
+		for i, n := 0, rapid.IntRange(0, 3).Draw(t, "tail"); i < n; i++ {
+			s.Outcomes = append(s.Outcomes, genOutcome(t, s.Signal, &cur, s.TimeoutMS > 0 || s.DeadlineMS > 0, false))
+		}
+		return s
+	}
 	switch mode {
 	case "shutdown":
 		// Shutdown arrives in / right after attempt At, whose failure asks for a
@@ -384,6 +411,49 @@ func gen(t *rapid.T) Script {
 	return s
 }
 
+// genPrelude sets up a case with an earlier request on the same exporter.  The configuration is chosen so that the
+// earlier request is cheap (initial_interval 1-2.5 ms, max_interval = k*initial with k in 4..8: at most ~5 waits of
+// <= 20 ms) and escalates its interval to max_interval (multiplier^failures >= k); the judged request then fails
+// retryably at least once.  In the "budget" / "deadline" variants the budget (deadline) of the judged request fits its
+// own first back-off (initial*(1+rf)) several times over but not max_interval*(1-rf): whether the judged request is
+// retried after its first failure is then a timing-free witness of retry state leaking from one request to the next.
+func genPrelude(t *rapid.T, s *Script) {
+	b := &s.Backoff
+	b.Enabled = true
+	b.InitialUS = int64(rapid.IntRange(1000, 2500).Draw(t, "p.initial_us"))
+	b.MultX100 = rapid.SampledFrom([]int{150, 200, 200, 300, 400}).Draw(t, "p.mult_x100")
+	b.RandX100 = rapid.SampledFrom([]int{0, 0, 10, 25}).Draw(t, "p.rand_x100")
+	k := rapid.IntRange(4, 8).Draw(t, "p.max_over_initial")
+	n := rapid.IntRange(2, 5).Draw(t, "p.failures")
+	m := float64(b.MultX100) / 100
+	for math.Pow(m, float64(n)) < float64(k) && n < 5 {
+		n++
+	}
+	if p := math.Pow(m, float64(n)); p < float64(k) {
+		k = int(p)
+	}
+	b.MaxIntUS = b.InitialUS * int64(k)
+	minE := int((b.MaxIntUS + 999) / 1000)
+	p := &Prelude{Failures: n, FinalPerm: rapid.IntRange(0, 2).Draw(t, "p.final-perm") == 0}
+	p.Variant = rapid.SampledFrom([]string{"budget", "budget", "deadline", "free"}).Draw(t, "p.variant")
+	switch p.Variant {
+	case "budget":
+		b.MaxElapsedMS = int64(minE + rapid.IntRange(0, 1).Draw(t, "p.budget_extra_ms"))
+		s.DeadlineMS = 0
+	case "deadline":
+		b.MaxElapsedMS = 0
+		lo := float64(b.MaxIntUS) * (1 - float64(b.RandX100)/100) / 1000 // ms: the shortest wait an escalated interval gives
+		s.DeadlineMS = max(3, int(lo))
+	default:
+		b.MaxElapsedMS = 0
+		if rapid.Bool().Draw(t, "p.budget?") {
+			b.MaxElapsedMS = int64(rapid.IntRange(minE, 200).Draw(t, "p.max_elapsed_ms"))
+		}
+	}
+	s.Queue = rapid.SampledFrom([]string{"", "", "", "wfr"}).Draw(t, "p.queue")
+	s.Prelude = p
+}
+
 // ---------------------------------------------------------------- backend
 
 type attempt struct {
@@ -411,6 +481,8 @@ type world struct {
 	verdOnce  sync.Once
 	first     chan struct{} // closed at the first attempt
 	firstOnce sync.Once
+	prelude   atomic.Bool // the earlier request (Script.Prelude) is in flight: its attempts are answered from preN
+	preN      int         // attempts of the earlier request seen so far
 }
 
 func newWorld(s *Script) *world {
@@ -492,6 +564,20 @@ func (w *world) push(ctx context.Context, v any) error {
 		if handled, err := w.companion(v); handled {
 			return err
 		}
+	}
+	if p := w.s.Prelude; p != nil && w.prelude.Load() {
+		// the earlier request: its own counter, nothing recorded in the judged request's trace
+		w.mu.Lock()
+		i := w.preN
+		w.preN++
+		w.mu.Unlock()
+		switch {
+		case i < p.Failures:
+			return fmt.Errorf("earlier request: backend failure #%d", i)
+		case p.FinalPerm:
+			return consumererror.NewPermanent(errors.New("earlier request: rejected"))
+		}
+		return nil
 	}
 	start := time.Now()
 	dl, has := ctx.Deadline()
@@ -802,6 +888,26 @@ func runInner(s *Script) (bool, *vt.Finding) {
 			sdDone.Store(true)
 		})
 	}
+	if p := s.Prelude; p != nil {
+		// The earlier request, on a context of its own.  The call returns the retry sender's verdict (no queue, or a
+		// wait_for_result queue under a context that never ends), so its retry loop is over when Consume returns.
+		w.prelude.Store(true)
+		perr := exp.Consume(context.Background(), mustDecode(s.Signal, s.Payload))
+		w.prelude.Store(false)
+		w.mu.Lock()
+		seen := w.preN
+		w.mu.Unlock()
+		switch {
+		case perr == nil:
+			cR.Class("prelude:earlier-request-succeeded")
+		case seen > p.Failures:
+			cR.Class("prelude:earlier-request-rejected")
+		default:
+			cR.Class("prelude:earlier-request-out-of-budget")
+		}
+		cR.Class("prelude", "prelude:variant:"+p.Variant, fmt.Sprintf("prelude:earlier-failures:%d", min(seen, p.Failures)),
+			fmt.Sprintf("prelude:max_interval/initial:%d", s.Backoff.MaxIntUS/s.Backoff.InitialUS))
+	}
 	ctx := context.Background()
 	tr := &trace{s: s, haveRet: true, detached: s.Queue == "async"}
 	if s.DeadlineMS > 0 {
@@ -1030,6 +1136,16 @@ func classify(c *vt.C, tr *trace) {
 	if n > 0 {
 		if o := s.outcome(n - 1); o.Expire && tr.attempts[n-1].hasDL && !tr.deadline.IsZero() && !tr.attempts[n-1].end.Before(tr.deadline) {
 			c.Class("request-deadline-expired-in-attempt")
+		}
+	}
+	if p := s.Prelude; p != nil && n > 0 && s.outcome(0).retryable() {
+		if n >= 2 {
+			c.Class("prelude:judged-request-retried-after-first-failure")
+			if p.Variant != "free" {
+				c.Class("prelude:judged-request-retried-after-first-failure/" + p.Variant + "-between-fresh-and-escalated-interval")
+			}
+		} else {
+			c.Class("prelude:judged-request-not-retried(budget/deadline/timeout)")
 		}
 	}
 	if s.TimeoutMS > 0 {
